@@ -116,54 +116,6 @@ Proof.
     rewrite enc_lines_cons in Ec. rewrite <- app_assoc in Ec.
     destruct (read_line_line s B _ Hwf HBl Ec) as [n [E1 [W E2]]].
     destruct (read_line s) as [o s']. cbn [fst snd] in *. subst o. cbn [app]. rewrite HBn.
-    apply (IH fuel s' L rest W HBs HL Hne E2). cbn in Hf. lia.
-Qed.
-
-(* white-space bytes (IoPrint.wf_suffix's set) *)
-Definition wsb (b : N) : bool := in_range 9 13 b || N.eqb b 32.
-(* white-space bytes forming complete lines *)
-Definition wf_blank_prefix (l : list N) : bool :=
-  forallb wsb l && match rev l with [] => true | c :: _ => N.eqb c 10 end.
-
-Lemma wsb_facts : forall b, wsb b = true -> is_white_space b = true /\ is_scalar b = true /\ (b < 128)%N.
-Proof.
-  intros b H. unfold wsb, in_range in H. apply orb_true_iff in H.
-  assert ((9 <= b <= 13)%N \/ b = 32%N) as R.
-  { destruct H as [H|H]; [left; apply andb_true_iff in H; destruct H as [H1 H2]; apply N.leb_le in H1, H2; lia
-                         |right; apply N.eqb_eq in H; exact H]. }
-  repeat split.
-  - unfold is_white_space. destruct H as [H|H]; [unfold in_range; rewrite H; reflexivity|].
-    apply N.eqb_eq in H. subst b. reflexivity.
-  - unfold is_scalar. apply orb_true_iff. left. apply N.ltb_lt. lia.
-  - lia.
-Qed.
-
-(* ... or reports end of input with a cleared buffer; [tail]: a last white-space line without LF *)
-Lemma u_fill_eof : forall blanks fuel s tail, wf_stream s ->
-  Forall blank_line blanks -> forallb wsb tail = true -> ~ In 10%N tail ->
-  concat s = enc_lines blanks ++ tail -> length blanks + (if is_nil tail then 0 else 1) < fuel ->
-  u_fill fuel [] s = FEof [] [].
-Proof.
-  induction blanks as [|B blanks IH]; intros fuel s tail Hwf HB Ht Hn Ec Hf.
-  - change (enc_lines []) with (@nil N) in Ec. cbn [app] in Ec.
-    destruct tail as [|t0 tl] eqn:Et.
-    + destruct fuel as [|fuel]; [cbn in Hf; lia|].
-      apply wf_concat_nil in Ec; [|exact Hwf]. subst s. reflexivity.
-    + rewrite <- Et in *. destruct fuel as [|[|fuel]]; try (rewrite Et in Hf; cbn in Hf; lia).
-      assert (~ In 10%N (concat s)) as Hn2 by (rewrite Ec; exact Hn).
-      destruct (read_until_notfound 10 s Hwf Hn2) as [Er Es].
-      assert (forallb (fun c => N.ltb c 128) tail = true) as Ha.
-      { rewrite forallb_forall in *. intros x Hx. apply N.ltb_lt. exact (proj2 (proj2 (wsb_facts x (Ht x Hx)))). }
-      assert (forallb is_white_space tail = true) as Hw.
-      { rewrite forallb_forall in *. intros x Hx. exact (proj1 (wsb_facts x (Ht x Hx))). }
-      cbn [u_fill]. unfold read_line. destruct (read_until 10 s) as [r s']. cbn [fst snd] in Er, Es. subst r s'.
-      rewrite Ec. rewrite (utf8_decode_ascii tail Ha). rewrite Et at 1. cbn [length]. rewrite <- Et.
-      cbn [app]. rewrite (trim_all_ws tail Hw). reflexivity.
-  - destruct fuel as [|fuel]; [cbn in Hf; lia|]. cbn [u_fill].
-    inversion HB as [|x l [HBl HBn] HBs]; subst.
-    rewrite enc_lines_cons in Ec. rewrite <- app_assoc in Ec.
-    destruct (read_line_line s B _ Hwf HBl Ec) as [n [E1 [W E2]]].
-    destruct (read_line s) as [o s']. cbn [fst snd] in *. subst o. cbn [app]. rewrite HBn.
     apply (IH fuel s' tail W HBs Ht Hn E2). cbn [length] in Hf. lia.
 Qed.
 
@@ -428,8 +380,9 @@ Section RTU.
   Definition enc_recs (rs : list (style * src)) : list N :=
     concat (map (fun q => utf8_encode (print_uniprobe q)) rs).
 
-  Lemma u_run_records : forall F sb tail rs p fuel st s1,
+  Lemma u_run_records : forall F sb tail,
     Forall blank_line sb -> forallb wsb tail = true -> ~ In 10%N tail ->
+    forall rs p fuel st s1,
     length (concat s1) < F ->
     goodp p -> Forall goodp rs -> filled_of F st = FLine (name_line p) s1 -> wf_stream s1 ->
     concat s1 = enc_lines (col_lines p) ++ enc_lines (gap_lines p) ++ enc_recs rs ++ enc_lines sb ++ tail ->
@@ -440,8 +393,8 @@ Section RTU.
     - destruct fuel as [|[|fuel]]; try (cbn in Hfu; lia).
       destruct F as [|F']; [lia|].
       destruct (goodp_inv p G) as [_ [_ [_ [_ [_ [Hc _]]]]]].
-      cbn [enc_recs map concat app] in Ec. rewrite app_assoc in Ec. rewrite <- enc_lines_app in Ec.
-      rewrite <- app_assoc in Ec.
+      cbn [enc_recs map concat app] in Ec. rewrite (app_assoc (enc_lines (gap_lines p))) in Ec.
+      rewrite <- enc_lines_app in Ec.
       pose proof (u_columns_eof (S F') (fst p) (scols (snd p)) (S F') s1 [] (gap_lines p ++ sb) tail HF Hwf Hc
                     (Forall_app_intro _ _ _ (gap_lines_ok p) Hsb) Ht Hnt Ec (cols_fuel_ok (S F') p s1 _ G Ec HF)) as Ecol.
       cbn [rev app] in Ecol.
@@ -473,27 +426,6 @@ Section RTU.
     unfold enc_recs in *. cbn [map concat length]. rewrite app_length. rewrite print_uniprobe_lines, app_length.
     destruct (goodp_inv q H1) as [Hn _]. destruct (name_line_ok _ (fst q) Hn) as [L _].
     pose proof (is_line_nonempty _ L) as L1. unfold name_line. specialize (IH H2). lia.
-  Qed.
-
-  Theorem uniprobe_roundtrip_core : forall rs s,
-    Forall goodp rs -> wf_stream s -> concat s = enc_recs rs ->
-    uniprobe_read A parse_f32 s = map (fun q => Ok (Some (spec_of q))) rs ++ [Ok None].
-  Proof.
-    intros rs s G Hwf Ec. unfold uniprobe_read.
-    destruct rs as [|p rs].
-    - cbn in Ec. apply wf_concat_nil in Ec; [|exact Hwf]. subst s. reflexivity.
-    - inversion G as [|x l Gp Grs]; subst.
-      destruct (goodp_inv p Gp) as [Hn _]. destruct (name_line_ok _ (fst p) Hn) as [Lp Np].
-      assert (concat s = enc_lines [] ++ utf8_encode (name_line p)
-                         ++ (enc_lines (col_lines p) ++ enc_lines (gap_lines p) ++ enc_recs rs)) as Ec2.
-      { rewrite Ec. unfold enc_recs. cbn [map concat]. rewrite print_uniprobe_lines.
-        rewrite <- !app_assoc. reflexivity. }
-      destruct (u_fill_lines [] (read_fuel s) s (name_line p) _ Hwf (Forall_nil _) Lp Np Ec2) as [s1 [E1 [W1 Es1]]].
-      { unfold read_fuel. cbn [length]. lia. }
-      assert (length (concat s1) < read_fuel s) as HF1.
-      { unfold read_fuel, stream_bytes. rewrite Ec2. rewrite !app_length. rewrite Es1. rewrite !app_length. lia. }
-      apply (u_run_records (read_fuel s) rs p _ (u_new s) s1 HF1 Gp Grs); [exact E1|exact W1|exact Es1|].
-      unfold read_fuel, stream_bytes. rewrite Ec. pose proof (enc_recs_length (p :: rs) G) as L. cbn [length] in L. lia.
   Qed.
 
   (* ---------- blank lines before the first record ---------- *)
@@ -542,31 +474,72 @@ Section RTU.
     rewrite forallb_forall in *. intros x Hx. apply N.ltb_lt. exact (proj2 (proj2 (wsb_facts x (Hw x Hx)))).
   Qed.
 
-  Theorem uniprobe_roundtrip_prefix : forall prefix rs s,
-    wf_blank_prefix prefix = true -> Forall goodp rs -> wf_stream s -> concat s = prefix ++ enc_recs rs ->
+  (* any white-space bytes: complete blank lines, then a last line without LF *)
+  Lemma ws_split_aux : forall n l, length l <= n -> forallb wsb l = true ->
+    exists blanks tail, l = concat blanks ++ tail /\ Forall blank_line blanks /\
+                        forallb wsb tail = true /\ ~ In 10%N tail.
+  Proof.
+    induction n as [|n IH]; intros l Hn Hw.
+    - destruct l; [|cbn in Hn; lia]. exists [], []. split; [reflexivity|]. split; [constructor|]. split; [reflexivity|intros []].
+    - destruct (split_delim 10 l) as [[p q]|] eqn:Es.
+      2: { exists [], l. split; [reflexivity|]. split; [constructor|]. split; [exact Hw|exact (split_delim_none 10 l Es)]. }
+      destruct (split_delim_some 10 l p q Es) as [Epq [p0 [Ep Hn0]]].
+      assert (forallb wsb p0 = true /\ forallb wsb q = true) as [Hp0 Hq].
+      { rewrite Epq, Ep in Hw. rewrite !forallb_app in Hw. split_andb. split; assumption. }
+      assert (length q <= n) as Lq.
+      { rewrite Epq, Ep in Hn. rewrite !app_length in Hn. cbn [length] in Hn. lia. }
+      destruct (IH q Lq Hq) as [blanks [tail [Eb [Hb [Ht Hnt]]]]].
+      exists ((p0 ++ [10%N]) :: blanks), tail. split; [cbn [concat]; rewrite <- app_assoc, <- Eb, <- Ep; exact Epq|].
+      split; [|split; assumption]. constructor; [|exact Hb]. split.
+      + exists p0. split; [reflexivity|]. rewrite forallb_forall in *. intros x Hx.
+        destruct (wsb_facts x (Hp0 x Hx)) as [_ [Hs _]]. unfold okl. rewrite Hs. cbn [andb].
+        apply negb_true_iff. apply N.eqb_neq. intros ->. exact (Hn0 Hx).
+      + rewrite trim_all_ws; [reflexivity|]. rewrite forallb_app. apply andb_true_iff. split; [|reflexivity].
+        rewrite forallb_forall in *. intros x Hx. exact (proj1 (wsb_facts x (Hp0 x Hx))).
+  Qed.
+
+  Lemma ws_split : forall l, wf_suffix l = true ->
+    exists blanks tail, l = enc_lines blanks ++ tail /\ Forall blank_line blanks /\
+                        forallb wsb tail = true /\ ~ In 10%N tail.
+  Proof.
+    intros l H. assert (forallb wsb l = true) as Hw by exact H.
+    destruct (ws_split_aux (length l) l (le_n _) Hw) as [blanks [tail [E [Hb [Ht Hn]]]]].
+    exists blanks, tail. repeat split; try assumption.
+    assert (forallb wsb (concat blanks) = true) as Hc.
+    { rewrite E in Hw. rewrite forallb_app in Hw. apply andb_true_iff in Hw. tauto. }
+    unfold enc_lines. rewrite utf8_encode_ascii; [exact E|].
+    rewrite forallb_forall in *. intros x Hx. apply N.ltb_lt. exact (proj2 (proj2 (wsb_facts x (Hc x Hx)))).
+  Qed.
+
+  Theorem uniprobe_roundtrip_full : forall prefix rs suffix s,
+    wf_blank_prefix prefix = true -> wf_suffix suffix = true -> Forall goodp rs -> wf_stream s ->
+    concat s = prefix ++ enc_recs rs ++ suffix ->
     uniprobe_read A parse_f32 s = map (fun q => Ok (Some (spec_of q))) rs ++ [Ok None].
   Proof.
-    intros prefix rs s Hpre G Hwf Ec. destruct (ws_lines prefix Hpre) as [blanks [Eb Hb]]. subst prefix.
+    intros prefix rs suffix s Hpre Hsuf G Hwf Ec.
+    destruct (ws_lines prefix Hpre) as [pb [Eb Hb]]. subst prefix.
+    destruct (ws_split suffix Hsuf) as [sb [tail [Es [Hsb [Ht Hnt]]]]]. subst suffix.
     unfold uniprobe_read.
     destruct rs as [|p rs].
-    - cbn [enc_recs map concat] in Ec. rewrite app_nil_r in Ec.
-      assert (length blanks < read_fuel s) as Hf.
-      { apply (fuel_ok_blanks (read_fuel s) s blanks [] []); [apply blank_lines_are_lines; exact Hb| |].
-        - rewrite app_nil_r. exact Ec.
+    - cbn [enc_recs map concat app] in Ec. rewrite app_assoc in Ec. rewrite <- enc_lines_app in Ec.
+      assert (length (pb ++ sb) + (if is_nil tail then 0 else 1) < read_fuel s) as Hf.
+      { apply (fuel_ok_blanks_tail (read_fuel s) s (pb ++ sb) [] tail).
+        - apply blank_lines_are_lines. apply Forall_app_intro; assumption.
+        - exact Ec.
         - unfold read_fuel, stream_bytes. lia. }
       remember (read_fuel s) as F eqn:EF. unfold read_fuel in EF. rewrite EF at 2. cbn [u_run]. unfold u_next. cbn [u_new uline ubuf ustream].
-      rewrite (u_fill_eof blanks F s Hwf Hb Ec Hf). reflexivity.
+      rewrite (u_fill_eof (pb ++ sb) F s tail Hwf (Forall_app_intro _ _ _ Hb Hsb) Ht Hnt Ec Hf). reflexivity.
     - inversion G as [|x l Gp Grs]; subst.
       destruct (goodp_inv p Gp) as [Hn _]. destruct (name_line_ok _ (fst p) Hn) as [Lp Np].
-      assert (concat s = enc_lines blanks ++ utf8_encode (name_line p)
-                         ++ (enc_lines (col_lines p) ++ enc_lines (gap_lines p) ++ enc_recs rs)) as Ec2.
+      assert (concat s = enc_lines pb ++ utf8_encode (name_line p)
+                         ++ (enc_lines (col_lines p) ++ enc_lines (gap_lines p) ++ enc_recs rs ++ enc_lines sb ++ tail)) as Ec2.
       { rewrite Ec. unfold enc_recs. cbn [map concat]. rewrite print_uniprobe_lines.
         rewrite <- !app_assoc. reflexivity. }
-      destruct (u_fill_lines blanks (read_fuel s) s (name_line p) _ Hwf Hb Lp Np Ec2) as [s1 [E1 [W1 Es1]]].
-      { apply (fuel_ok_blanks (read_fuel s) s blanks [] _ (blank_lines_are_lines _ Hb) Ec2). unfold read_fuel, stream_bytes. lia. }
+      destruct (u_fill_lines pb (read_fuel s) s (name_line p) _ Hwf Hb Lp Np Ec2) as [s1 [E1 [W1 Es1]]].
+      { apply (fuel_ok_blanks (read_fuel s) s pb [] _ (blank_lines_are_lines _ Hb) Ec2). unfold read_fuel, stream_bytes. lia. }
       assert (length (concat s1) < read_fuel s) as HF1.
       { unfold read_fuel, stream_bytes. rewrite Ec2. rewrite !app_length. rewrite Es1. rewrite !app_length. lia. }
-      apply (u_run_records (read_fuel s) rs p _ (u_new s) s1 HF1 Gp Grs); [exact E1|exact W1|exact Es1|].
-      unfold read_fuel, stream_bytes. rewrite Ec, app_length. pose proof (enc_recs_length (p :: rs) G) as L. cbn [length] in L. lia.
+      apply (u_run_records (read_fuel s) sb tail Hsb Ht Hnt rs p _ (u_new s) s1 HF1 Gp Grs); [exact E1|exact W1|exact Es1|].
+      unfold read_fuel, stream_bytes. rewrite Ec, !app_length. pose proof (enc_recs_length (p :: rs) G) as L. cbn [length] in L. lia.
   Qed.
 End RTU.
